@@ -65,6 +65,8 @@ type Engine struct {
 	globals  map[types.Object]*Val
 	paths    int
 	err      error
+	// Vals lists every abstract value created, by id.
+	Vals map[int]*Val
 	// Params maps the parameters (and receiver) of the entry function of the last Run to their abstract values.
 	Params map[types.Object]*Val
 }
@@ -94,7 +96,12 @@ func New(pkg *packages.Package, pol Policy) *Engine {
 
 func (e *Engine) newVal(k Kind, t types.Type, pos token.Pos) *Val {
 	e.nextID++
-	return &Val{ID: e.nextID, Kind: k, Type: t, Pos: pos}
+	v := &Val{ID: e.nextID, Kind: k, Type: t, Pos: pos}
+	if e.Vals == nil {
+		e.Vals = map[int]*Val{}
+	}
+	e.Vals[v.ID] = v
+	return v
 }
 
 func (e *Engine) constVal(c constant.Value, t types.Type) *Val {
